@@ -7,6 +7,7 @@ import (
 	"os"
 	"sort"
 	"strings"
+	"sync"
 	"time"
 )
 
@@ -93,21 +94,14 @@ func (c *Ctx) validateAsmTraces(files []string, sources []string) (*traceResult,
 	if n == 0 {
 		return &traceResult{Accepted: true}, nil
 	}
-	var res *traceResult
-	_, err := c.runTLC(TLCRun{Module: "Trace_AsmShape", Seed: c.Seed, Timeout: 30 * time.Minute, Workers: 1,
-		Invs: []string{"Report"}, ExtraFiles: map[string]string{"trace.ndjson": nd.String()}}, func(raw []byte) error {
-		var r traceResult
-		if err := mustJSON(raw, &r); err != nil {
-			return err
-		}
-		res = &r
-		return nil
-	})
+	res, err := c.runAsmTraceTLC(nd.String())
 	if err != nil {
-		return nil, fmt.Errorf("trace validation: %v", err)
+		return nil, err
 	}
-	if res == nil {
-		return nil, fmt.Errorf("trace validation printed no report")
+	if res.Accepted {
+		if err := c.asmTraceCanaries(strings.Split(strings.TrimRight(nd.String(), "\n"), "\n")); err != nil {
+			return nil, err
+		}
 	}
 	res.Processes = procs
 	if !res.Accepted {
@@ -123,6 +117,87 @@ func (c *Ctx) validateAsmTraces(files []string, sources []string) (*traceResult,
 	}
 	return res, nil
 }
+
+// runAsmTraceTLC validates one concatenated trace with Trace_AsmShape.
+func (c *Ctx) runAsmTraceTLC(nd string) (*traceResult, error) {
+	var res *traceResult
+	_, err := c.runTLC(TLCRun{Module: "Trace_AsmShape", Seed: c.Seed, Timeout: 30 * time.Minute, Workers: 1,
+		Invs: []string{"Report"}, ExtraFiles: map[string]string{"trace.ndjson": nd}}, func(raw []byte) error {
+		var r traceResult
+		if err := mustJSON(raw, &r); err != nil {
+			return err
+		}
+		res = &r
+		return nil
+	})
+	if err != nil {
+		return nil, fmt.Errorf("trace validation: %v", err)
+	}
+	if res == nil {
+		return nil, fmt.Errorf("trace validation printed no report")
+	}
+	return res, nil
+}
+
+// asmTraceCanaries guards the acceptor against vacuity: two corruptions of a trace that was just
+// accepted - one logged field changed, one event dropped - must be rejected exactly where the
+// corruption sits.  An acceptor that lets them pass decides nothing; that is an infrastructure
+// problem (exit 2), never a verdict about the code.
+func (c *Ctx) asmTraceCanaries(lines []string) error {
+	// the first process that has an asm.entry followed by an asm.state
+	from, entry, state := -1, -1, -1
+	for i, l := range lines {
+		switch {
+		case strings.Contains(l, `"proc.reset"`):
+			if entry >= 0 && state > entry {
+				goto found
+			}
+			from, entry, state = i, -1, -1
+		case strings.Contains(l, `"ev":"asm.entry"`) && entry < 0:
+			entry = i
+		case strings.Contains(l, `"ev":"asm.state"`) && entry >= 0 && state < 0:
+			state = i
+		}
+	}
+	if entry < 0 || state < entry {
+		return nil // no trace with an entry line: nothing to corrupt
+	}
+found:
+	to := state + 1
+	proc := lines[from:to]
+	// 1. one field of the asm.state event changed
+	var ev map[string]any
+	if err := json.Unmarshal([]byte(lines[state]), &ev); err != nil {
+		return err
+	}
+	n, _ := ev["n"].(float64)
+	ev["n"] = n + 1
+	b, _ := json.Marshal(ev)
+	flipped := append(append([]string{}, proc[:len(proc)-1]...), string(b))
+	// 2. the asm.entry event dropped
+	var dropped []string
+	for i, l := range proc {
+		if from+i != entry {
+			dropped = append(dropped, l)
+		}
+	}
+	for name, tr := range map[string][]string{"field-changed": flipped, "event-dropped": dropped} {
+		r, err := c.runAsmTraceTLC(strings.Join(tr, "\n") + "\n")
+		if err != nil {
+			return err
+		}
+		if r.Accepted {
+			return fmt.Errorf("the trace acceptor accepted a corrupted trace (%s): Direction B would be vacuous", name)
+		}
+	}
+	canaryMu.Lock()
+	n0, _ := c.Cov["corrupted_traces_rejected"].(int)
+	c.Cov["corrupted_traces_rejected"] = n0 + 2
+	canaryMu.Unlock()
+	return nil
+}
+
+var canaryMu sync.Mutex
 
 // parseFmtTrace accumulates parser and formatter events of recorded executions.
 type parseFmtTrace struct {
@@ -215,22 +290,76 @@ func (t *parseFmtTrace) validate(c *Ctx) (*parseFmtResult, error) {
 		kd.WriteByte('\n')
 		klines = append(klines, string(b))
 	}
-	var res *parseFmtResult
-	_, err := c.runTLC(TLCRun{Module: "Trace_Parse", Seed: c.Seed, Timeout: 30 * time.Minute, Workers: 1,
-		Constants: map[string]string{"IncludeUnanchored": "= FALSE"}, Invs: []string{"Report"},
-		ExtraFiles: map[string]string{"kinds.ndjson": kd.String(), "fmt.ndjson": t.fmt.String()}}, func(raw []byte) error {
-		var r parseFmtResult
-		if err := mustJSON(raw, &r); err != nil {
-			return err
+	run := func(kinds, fmtlog string) (*parseFmtResult, error) {
+		var res *parseFmtResult
+		_, err := c.runTLC(TLCRun{Module: "Trace_Parse", Seed: c.Seed, Timeout: 30 * time.Minute, Workers: 1,
+			Constants: map[string]string{"IncludeUnanchored": "= FALSE"}, Invs: []string{"Report"},
+			ExtraFiles: map[string]string{"kinds.ndjson": kinds, "fmt.ndjson": fmtlog}}, func(raw []byte) error {
+			var r parseFmtResult
+			if err := mustJSON(raw, &r); err != nil {
+				return err
+			}
+			res = &r
+			return nil
+		})
+		if err != nil {
+			return nil, fmt.Errorf("parser/format trace validation: %v", err)
 		}
-		res = &r
-		return nil
-	})
-	if err != nil {
-		return nil, fmt.Errorf("parser/format trace validation: %v", err)
+		if res == nil {
+			return nil, fmt.Errorf("parser/format trace validation printed no report")
+		}
+		return res, nil
 	}
-	if res == nil {
-		return nil, fmt.Errorf("parser/format trace validation printed no report")
+	res, err := run(kd.String(), t.fmt.String())
+	if err != nil {
+		return nil, err
+	}
+	if res.Accepted {
+		// canaries: a recorded kind changed, and a recorded indentation depth changed, must be rejected
+		n := 0
+		if len(keys) > 0 {
+			parts := strings.SplitN(keys[0], "\x00", 2)
+			var kind int
+			fmt.Sscanf(parts[0], "%d", &kind)
+			wrong := 7
+			if kind == 7 {
+				wrong = 12
+			}
+			b, _ := json.Marshal(map[string]any{"kind": wrong, "line": parts[1]})
+			r, err := run(string(b)+"\n", "")
+			if err != nil {
+				return nil, err
+			}
+			if r.Accepted {
+				return nil, fmt.Errorf("the parser trace acceptor accepted a corrupted kind: Direction B would be vacuous")
+			}
+			n++
+		}
+		for _, l := range strings.Split(t.fmt.String(), "\n") {
+			if !strings.Contains(l, `"fmt.line"`) {
+				continue
+			}
+			var ev map[string]any
+			if json.Unmarshal([]byte(l), &ev) != nil {
+				break
+			}
+			a, _ := ev["after"].(float64)
+			ev["after"] = a + 1
+			b, _ := json.Marshal(ev)
+			r, err := run("", string(b)+"\n")
+			if err != nil {
+				return nil, err
+			}
+			if r.Accepted {
+				return nil, fmt.Errorf("the formatter trace acceptor accepted a corrupted depth: Direction B would be vacuous")
+			}
+			n++
+			break
+		}
+		canaryMu.Lock()
+		n0, _ := c.Cov["corrupted_traces_rejected"].(int)
+		c.Cov["corrupted_traces_rejected"] = n0 + n
+		canaryMu.Unlock()
 	}
 	if !res.Accepted {
 		if res.Kinds <= len(klines) && res.Fmt == 0 && res.Kinds >= 1 {
@@ -301,21 +430,41 @@ func (c *Ctx) validateCleanPairs(pairs map[[2]string]bool) (int, string, error) 
 		nd.Write(b)
 		nd.WriteByte('\n')
 	}
-	accepted, consumed := false, 0
-	_, err := c.runTLC(TLCRun{Module: "Trace_Cleanup", Seed: c.Seed, Timeout: 30 * time.Minute, Workers: 1,
-		Invs: []string{"Report"}, ExtraFiles: map[string]string{"clean.ndjson": nd.String()}}, func(raw []byte) error {
-		var r struct {
-			Accepted bool `json:"accepted"`
-			Consumed int  `json:"consumed"`
+	runPairs := func(text string) (bool, int, error) {
+		accepted, consumed := false, 0
+		_, err := c.runTLC(TLCRun{Module: "Trace_Cleanup", Seed: c.Seed, Timeout: 30 * time.Minute, Workers: 1,
+			Invs: []string{"Report"}, ExtraFiles: map[string]string{"clean.ndjson": text}}, func(raw []byte) error {
+			var r struct {
+				Accepted bool `json:"accepted"`
+				Consumed int  `json:"consumed"`
+			}
+			if err := mustJSON(raw, &r); err != nil {
+				return err
+			}
+			accepted, consumed = r.Accepted, r.Consumed
+			return nil
+		})
+		if err != nil {
+			return false, 0, fmt.Errorf("clean-up trace validation: %v", err)
 		}
-		if err := mustJSON(raw, &r); err != nil {
-			return err
-		}
-		accepted, consumed = r.Accepted, r.Consumed
-		return nil
-	})
+		return accepted, consumed, nil
+	}
+	accepted, consumed, err := runPairs(nd.String())
 	if err != nil {
-		return 0, "", fmt.Errorf("clean-up trace validation: %v", err)
+		return 0, "", err
+	}
+	if accepted {
+		// canary: one recorded result changed by one character must be rejected
+		b, _ := json.Marshal(map[string]string{"before": keys[0][0], "after": keys[0][1] + "x"})
+		if acc, _, err := runPairs(string(b) + "\n"); err != nil {
+			return 0, "", err
+		} else if acc {
+			return 0, "", fmt.Errorf("the clean-up trace acceptor accepted a corrupted pair: Direction B would be vacuous")
+		}
+		canaryMu.Lock()
+		n0, _ := c.Cov["corrupted_traces_rejected"].(int)
+		c.Cov["corrupted_traces_rejected"] = n0 + 1
+		canaryMu.Unlock()
 	}
 	if !accepted && consumed >= 1 && consumed <= len(keys) {
 		return consumed, fmt.Sprintf("before %q after %q", keys[consumed-1][0], keys[consumed-1][1]), nil
